@@ -28,6 +28,7 @@ type CliWorld struct {
 	stream   bool     // the client speaks TURN over a stream (its Conn is a STUNConn over simnet TCP)
 	cliConn  *TCPConn // client end of that stream
 	srvInMu  sync.Mutex
+	sharedAddr *net.UDPAddr // the one address object of an application that reuses it
 	cliOut, cliIn []byte // not yet deframed bytes written / read by the client on the stream
 	cliOutBad bool
 	cliFrames int
